@@ -70,6 +70,17 @@ CLAIMED = {
                 note='trusted: simulated clock behind time.time/time.sleep/datetime.now of util/times.py, stub upstream, SimFS mtimes; '
                      'sqlite backend outside the simulator (TZ=UTC)',
                 technique='deterministic simulation: simulated clock + simulated upstream with failure injection, model-based history checking'),
+    'C20': dict(level='exploration', ref='DESIGN.md 6.10',
+                text='seeded histories of GETs, conditional GETs (If-None-Match current/previous/garbage, If-Modified-Since '
+                     'before/equal/after/malformed), clock advances, rewrites through the real expiry path and upstream-500 '
+                     'periods against the full WSGI application built by the real loader (TMS, KML, WMTS REST/KVP, WMS-C; file '
+                     'cache on SimFS or per-level sqlite cache; single and meta tiles) with a simulated upstream behind '
+                     'HTTPClient.open; oracle: identical validators and body while the fetch generation in the pixels is '
+                     'unchanged, 304 + empty body for the current ETag, every 304 justified, fill images carry no-store and '
+                     'are never served from the cache.',
+                note='trusted: simulated HTTP transport and clock; sqlite backend outside the simulator; creating responses are '
+                     'excluded from the equality clause',
+                technique='deterministic simulation: full WSGI stack over simulated clock, file system and upstream with HTTP-500 injection; model-based history checking'),
 }
 
 NA = {
@@ -85,7 +96,7 @@ NA = {
     'C18': 'well-formedness/escaping of responses is a function of the request bytes',
 }
 
-PENDING = ['C11', 'C12', 'C20']
+PENDING = ['C11', 'C12']
 
 
 def main():
